@@ -6,6 +6,7 @@ import (
 	"encoding/json"
 	"fmt"
 	"sort"
+	"strings"
 	"time"
 
 	v120 "github.com/chain4energy/c4e-chain/app/upgrades/v120"
@@ -39,7 +40,7 @@ func init() {
 			"Oracle after the upgrade block: sum locked and every pool's sent/withdrawn unchanged, module balance == sum locked, split applied to all four pools with the validators pool reduced by exactly their sum or nothing changed, shifted accounts keep amounts and move exactly one year, " +
 			"all other accounts byte-identical, migrated parameters validate and describe the same schedule/shares (M-mint/M-dist built from legacy and migrated parameters agree), traces keep id/address, the chain keeps producing blocks. " +
 			"non-trivial = the upgrade handler ran with at least one pool; distinct = hash of precondition variant, split outcome, crash point and outcome",
-		Quick:      Tier{Runs: 250, BudgetSec: 55},
+		Quick:      Tier{Runs: 3000, BudgetSec: 55},
 		Thorough:   Tier{Runs: 15000, BudgetSec: 780},
 		RunSeed:    c16RunSeed,
 		Replay:     c16Replay,
@@ -51,7 +52,9 @@ func init() {
 }
 
 type c16Extra struct {
-	Variant string `json:"variant"`
+	Variant    string `json:"variant"`
+	C11Upgrade bool   `json:"c11_upgrade,omitempty"` // the trace belongs to C11's upgrade sub-profile
+	C17Upgrade bool   `json:"c17_upgrade,omitempty"` // ... to C17's upgrade sub-profile
 }
 
 const uc4ePerToken = 1_000_000
@@ -64,7 +67,10 @@ var c16NewPools = map[string]sdk.Int{
 	"Strategic reserve short term round pool": sdk.NewInt(40_000_000).MulRaw(uc4ePerToken),
 }
 
-func c16RunSeed(seed uint64, tier string) *Outcome {
+func c16RunSeed(seed uint64, tier string) *Outcome { return c16Replay(c16Trace(seed)) }
+
+// c16Trace generates the pre-upgrade world and the blocks around the upgrade (also used by C11's upgrade sub-profile).
+func c16Trace(seed uint64) *kernel.Trace {
 	r := kernel.NewRng(seed)
 	spec := baseSpec(r.Fork(1), r.Range(3, 5), nil, 16)
 	spec.NoICA = true
@@ -153,6 +159,12 @@ func c16RunSeed(seed uint64, tier string) *Outcome {
 		}
 		if r.P(0.4) {
 			avp.VestingPools = append(avp.VestingPools, mkPool("Other pool", sdk.NewIntFromBigInt(r.BigLogUniform(15)), typeNames()))
+		}
+		if r.P(0.3) {
+			// the owner already created a pool that carries the name of one of the pools the upgrade adds
+			// (MsgCreateVestingPool accepts any unused name): its value and history must survive as well
+			names := []string{"VC round pool", "Early-bird round pool", "Public round pool", "Strategic reserve short term round pool"}
+			avp.VestingPools = append(avp.VestingPools, mkPool(names[r.Intn(len(names))], sdk.NewIntFromBigInt(r.BigLogUniform(15)), typeNames()))
 		}
 		if len(avp.VestingPools) > 0 {
 			vg.AccountVestingPools = append(vg.AccountVestingPools, avp)
@@ -251,7 +263,7 @@ func c16RunSeed(seed uint64, tier string) *Outcome {
 		}
 		tr.Blocks = append(tr.Blocks, b)
 	}
-	return c16Replay(tr)
+	return tr
 }
 
 func typeOr(vg vtypes.GenesisState, want string) string {
@@ -451,6 +463,9 @@ func c16Replay(tr *kernel.Trace) *Outcome {
 	if run.InfraErr != nil {
 		o.InfraErr = run.InfraErr
 	}
+	for _, h := range run.AppHashes {
+		o.Hashes = append(o.Hashes, fmt.Sprintf("%x", h))
+	}
 	o.Violations = append(o.Violations, run.Violations...)
 	o.Nontrivial = s0 != nil && len(s0.pools) > 0
 	crashes := fmt.Sprint(tr.Blocks[0].Crash != 0, tr.Blocks[1].Crash != 0)
@@ -484,7 +499,7 @@ func c16Check(r *kernel.Run, s0 *c16Snap, legacyMinter mintertypes.LegacyParams,
 	if pools, ok := s1.pools[owner]; ok {
 		n := 0
 		for name := range c16NewPools {
-			if _, ok := pools[name]; ok {
+			if countPools(pools, name) > countPools(s0.pools[owner], name) {
 				n++
 			}
 		}
@@ -533,14 +548,14 @@ func c16Check(r *kernel.Run, s0 *c16Snap, legacyMinter mintertypes.LegacyParams,
 	if splitDone {
 		o.Stats.Inc("probe.split_applied")
 		for name, amt := range c16NewPools {
-			q := s1.pools[owner][name]
+			q := s1.pools[owner][lastPoolKey(s1.pools[owner], name)]
 			if !q.Init.Equal(amt) || !q.Sent.IsZero() || !q.Wd.IsZero() {
 				violate("split-all-or-nothing", "new-pool-amount", "new pool %q holds {init %s sent %s wd %s}, expected %s", name, q.Init, q.Sent, q.Wd, amt)
 			}
 		}
 		// nothing else appeared
 		for name := range s1.pools[owner] {
-			if _, isNew := c16NewPools[name]; isNew || name == "Validator round pool" {
+			if _, isNew := c16NewPools[poolBaseName(name)]; isNew || name == "Validator round pool" {
 				continue
 			}
 			if _, ok := s0.pools[owner][name]; !ok {
@@ -636,6 +651,24 @@ func c16Check(r *kernel.Run, s0 *c16Snap, legacyMinter mintertypes.LegacyParams,
 			violate("traces", "trace-lost-or-renumbered", "trace %d/%s is %v after the upgrade", t.Id, t.Address, g)
 		}
 	}
+	// (h) lineage: the handler's own flagging step (genesis / from-genesis-pool marks for the accounts it lists) must
+	// have taken effect - running that step once more on the upgraded store may not change any trace. Decided with
+	// the repository's own function on a throw-away context, not with a copy of its address lists.
+	o.Evals++
+	if pi := c.WithCache("v120.UpdateVestingAccountTraces (again)", func(cctx sdk.Context) bool {
+		v120.UpdateVestingAccountTraces(cctx, c.App)
+		for _, t2 := range c.App.CfevestingKeeper.GetAllVestingAccountTrace(cctx) {
+			if t1x, ok := byAddr[t2.Address]; ok && (t1x.Genesis != t2.Genesis || t1x.FromGenesisPool != t2.FromGenesisPool || t1x.FromGenesisAccount != t2.FromGenesisAccount) {
+				o.Violations = append(o.Violations, &kernel.Violation{Property: "C17", Check: "lineage-after-upgrade", Signature: "upgrade-left-trace-unflagged", Block: 1, TxIndex: -1,
+					Message: fmt.Sprintf("after the upgrade the trace of %s is recorded as {genesis %v, from genesis pool %v, from genesis account %v}; the upgrade's own flagging step, run again, records {%v, %v, %v}: the handler's flagging did not take effect",
+						t2.Address, t1x.Genesis, t1x.FromGenesisPool, t1x.FromGenesisAccount, t2.Genesis, t2.FromGenesisPool, t2.FromGenesisAccount)})
+				break
+			}
+		}
+		return false
+	}); pi != nil {
+		violate("traces", "flagging-step-panics:"+pi.Site(), "the upgrade's trace flagging step panics on the upgraded store: %s", firstLineOf(pi.Value))
+	}
 	if len(t1) != len(s0.traces) || c.App.CfevestingKeeper.GetVestingAccountTraceCount(ctx) != s0.traceN {
 		violate("traces", "trace-count-changed", "%d traces (counter %d) before, %d (counter %d) after", len(s0.traces), s0.traceN, len(t1), c.App.CfevestingKeeper.GetVestingAccountTraceCount(ctx))
 	}
@@ -682,4 +715,31 @@ func (panicTxMonitor) AfterTx(r *kernel.Run, tx *kernel.Tx, msgs []sdk.Msg, res 
 		url := sdk.MsgTypeURL(msgs[0])
 		r.Violate("C20", "message-panic", "deliver-panic-after-upgrade:"+url[len(url)-20:]+"@"+res.Panic.Site(), "%s panicked on the upgraded state: %s", url, firstLineOf(res.Panic.Value))
 	}
+}
+
+// pools of one owner are keyed by name; a repeated name gets the suffix "\x00#k" in store order (see takeVSnap)
+func poolBaseName(key string) string {
+	if i := strings.Index(key, "\x00#"); i >= 0 {
+		return key[:i]
+	}
+	return key
+}
+
+func countPools(pools map[string]poolRec, name string) int {
+	n := 0
+	for k := range pools {
+		if poolBaseName(k) == name {
+			n++
+		}
+	}
+	return n
+}
+
+// lastPoolKey: the key of the pool with that name that comes last in the owner's list (the one appended last).
+func lastPoolKey(pools map[string]poolRec, name string) string {
+	n := countPools(pools, name)
+	if n <= 1 {
+		return name
+	}
+	return fmt.Sprintf("%s\x00#%d", name, n)
 }
